@@ -25,7 +25,8 @@ LEAN_MODULES = ['GnpyProofs.Props.C09']
 THEOREMS = [f'Gnpy.Chain.{t}' for t in (
     'rint_error', 'round2float_error', 'targetPower_roadm', 'targetPower_range', 'dp_rule', 'dp_rule_rounding',
     'gain_closes_budget', 'net_offset', 'ref_power_invariant', 'saturation_only_reduces', 'saturation_minimal',
-    'saturation_minimal_gain_mode', 'saturation_auto_selected', 'user_values_kept', 'voa_rule', 'voa_nonneg',
+    'saturation_minimal_gain_mode', 'saturation_minimal_gain_mode_no_in_voa',
+    'gain_mode_in_voa_over_reduction_fails_current', 'saturation_auto_selected', 'user_values_kept', 'voa_rule', 'voa_nonneg',
     'voa_auto_can_exceed_pmax_fails_current', 'nodeLoss_is_true_loss')]
 RULE = ('cases from one PRNG: (a) 78 % the star topologies of C08 (degree 1-5, 1-8 line elements per direction, user '
         'amplifiers with full/partial/no gain, delta_p, out_voa, in_voa, fused runs, Raman spans, transceiver-sourced '
@@ -41,7 +42,8 @@ MODEL_SCOPE = ('modelled: round2float, target_power, span_loss with cached desig
                '(property C10) - its p_max / gain_flatmax / out_voa_auto are looked up in the library; the estimated '
                'Raman gain of RamanFibers (Raman solver not modelled); the ROADM egress reference power (C06). Not '
                'modelled: tilt targets / SRS deviation (zero for single-band Edfa), Multiband amplifiers, '
-               'set_roadm_input_powers / set_fiber_input_power (display values)')
+               'set_roadm_input_powers / set_fiber_input_power (display values). Topologies on which designed_network '
+               'raises (RamanFiber whose launch power is not yet known: open finding of C08) are not generated')
 PARTIAL = []
 
 TOL = 1e-6
@@ -53,7 +55,9 @@ def gen(rng, tier, widen=False):
         return gen_malformed(rng, tier)
     if r < 0.22 or (widen and r < 0.5):
         return gen_unit(rng, widen)
-    c = G.gen_case(rng, tier, widen, raman_crash_rate=0.005)
+    # RamanFiber placements that make designed_network raise (open finding raman-gain-before-estimate of C08) are kept
+    # out of this generator
+    c = G.gen_case(rng, tier, widen, raman_crash_rate=0.0)
     c['kind'] = 'design'
     return c
 
@@ -405,10 +409,13 @@ def monitor_oms(res, case, eq, ch, pre, post, p0, pref, pref_total, st):
                 if Gn > u_gain + TOL:
                     res.fail(f'user gain: {r["uid"]} gain {Gn} above the operator value {u_gain}', uid=r['uid'])
                 elif not (would > limit - TOL and p_in + Gn >= limit - TOL):
+                    # open finding gain-mode-in-voa-saturation: the gain-mode check of the code (operator type_variety)
+                    # leaves in_voa out of the output estimate, so the gain is cut until p_in + in_voa + gain = p_max
+                    f14 = bool(iv) and not auto_sel and would > limit - TOL and abs((p_in + iv + Gn) - limit) <= TOL
                     res.fail(f'user gain: {r["uid"]} gain {Gn:.6f} instead of the operator value {u_gain}: with the '
                              f'operator value the output would be {would:.6f} dBm, with the reduced gain it is '
                              f'{p_in + Gn:.6f} dBm, limit {limit:.6f} dBm (in_voa {iv}): reduced more than needed',
-                             uid=r['uid'])
+                             cls='gain-mode-in-voa-saturation' if f14 else 'unlisted', uid=r['uid'])
             else:
                 st['amps_user_gain_kept'] += 1
         off = net
@@ -499,3 +506,13 @@ def shrink_candidates(case):
         if case['kind'] == 'malformed' and (len(c['span']['delta_power_range_db']) != 2 or not c['chains']):
             continue
         yield c
+
+
+def exhaustive():
+    """the small scope of C08 (all lines of 1-3 elements over short/long fibre, Fused, user Edfa) in both modes"""
+    from props.c08 import small_scope_cases
+    for c in small_scope_cases('design'):
+        yield c
+        g = copy.deepcopy(c)
+        g['span']['power_mode'] = False
+        yield g
